@@ -33,6 +33,48 @@ def _decide(check, rule, construct, loc, alg, lhs, rhs, what, key=None):
 
 
 # --------------------------------------------------------------------------- registry / dispatch
+def _dispatch_semantic(proj, cls, nf):
+    """True: numflux(self, NAME, L, R, D) looks NAME up in the registry once, calls what it finds once with (self, L, R, D) and
+    returns its result.  str: what it does instead.  AnalysisError instance: not followed."""
+    from ..algebra import Algebra
+    from ..interp import Interp, GvnDomain, SelfObj, ObjStub
+
+    class _Reg(dict):
+        def __init__(self):
+            dict.__init__(self)
+            self.looked, self.calls = [], []
+            self.result = ObjStub("flux result", {})
+
+        def _fd_getitem(self, idx, interp):
+            self.looked.append(idx)
+
+            def entry(*a):
+                self.calls.append((idx, a))
+                return self.result
+            return entry
+
+        def __iter__(self):
+            return iter(["<registered names>"])
+    try:
+        it = Interp(proj, GvnDomain(Algebra()))
+        reg = _Reg()
+        so = SelfObj(cls, {"_numfluxdict": ObjStub("_numfluxdict", {"dict": reg}), "equation": "model"})
+        L, R, D = ObjStub("left state", {}), ObjStub("right state", {}), ObjStub("normal", {})
+        out = it.call_function(nf, [so, "NAME", L, R, D])
+    except AnalysisError as e:
+        return e
+    if reg.looked != ["NAME"]:
+        return "the registry is looked up with %r, expected the name given" % (reg.looked,)
+    if len(reg.calls) != 1:
+        return "the registered function is called %d times" % len(reg.calls)
+    a = reg.calls[0][1]
+    if not (len(a) == 4 and a[0] is so and a[1] is L and a[2] is R and a[3] is D):
+        return "the registered function is called with %s, expected (self, left, right, normal)" % ([getattr(x, "name", type(x).__name__) for x in a],)
+    if out is not reg.result:
+        return "the dispatcher does not return the value of the registered function"
+    return True
+
+
 def reg_flux(check):
     proj = check.proj
     n = 0
@@ -61,6 +103,16 @@ def reg_flux(check):
                     else:
                         why = "dispatch call passes %s, expected %s" % (argn, [ps[0]] + ps[2:5])
         n += 1
+        if not ok and nf is not None:
+            # not the one-line form: decide it on the abstract execution of the dispatcher with a recording registry
+            sem = _dispatch_semantic(proj, cls, nf)
+            if sem is True:
+                ok = True
+            elif isinstance(sem, str):
+                why = sem
+            elif why == "no dispatching call found":
+                check.undecided("REG-FLUX", "%s.numflux" % cls.qualname, "dispatcher not in a form the analysis follows: %s" % (sem,), nf.loc())
+                continue
         if ok:
             check.ok("REG-FLUX", "%s.numflux" % cls.qualname, "dispatches registry[name](self, L, R, dir) in that order", nf.loc())
         else:
